@@ -148,12 +148,19 @@ def replaceInline (rec : Rec) (env : Env) (text : Str) (expand : Expand) : M Str
   else if expand.specials == some true then pure (replaceSpecialChars result)
   else pure result
 
+/-- What `utils.replaceMatch` does with the text of one group: `$n` (spans = false) adds specials to a copy of the
+    expansion options, `$$n` adds spans; the text is expanded and, unless it was span-rendered, its double quotes
+    are escaped (it may stand inside a quoted attribute value). -/
+def replaceGroupText (rec : Rec) (env : Env) (g : Str) (spans : Bool) (expand : Expand) : M Str := do
+  let groupExpand : Expand :=
+    if spans then { expand with spans := some true } else { expand with specials := some true }
+  let result ← replaceInline rec env g groupExpand
+  return if groupExpand.spans != some true then replaceAll result "\"".toList "&quot;".toList else result
+
 /-- The `repl(m)` closure of `utils.replaceMatch`: every `$n` / `$$n` gets its own copy of the
     expansion options. -/
 def replaceMatchGroup (rec : Rec) (env : Env) (mt : Match) (expand : Expand) (m : Match) : M Str := do
   let dollars ← m.str 1
-  let groupExpand : Expand :=
-    if dollars == "$$".toList then { expand with spans := some true } else { expand with specials := some true }
   let digit ← m.str 2
   let i ← match pyInt digit with
     | some i => pure i.toNat
@@ -162,8 +169,7 @@ def replaceMatchGroup (rec : Rec) (env : Env) (mt : Match) (expand : Expand) (m 
     errorCallback ("undefined replacement group: ".toList ++ m.whole)
     return []
   let g ← mt.orEmpty i
-  let result ← replaceInline rec env g groupExpand
-  return if groupExpand.spans != some true then replaceAll result "\"".toList "&quot;".toList else result
+  replaceGroupText rec env g (dollars == "$$".toList) expand
 
 /-- `utils.replaceMatch(match, replacement, expand)` -/
 def replaceMatch (rec : Rec) (env : Env) (mt : Match) (replacement : Str) (expand : Expand := {}) : M Str :=
